@@ -240,6 +240,154 @@ class Case:
         return "\n".join(L) + "\n"
 
 
+# ------------------------------------------------------------------ integer argument conversions (ArgConv.tla)
+INT_C = dict(bool="_Bool", char="char", schar="signed char", uchar="unsigned char", short="short", ushort="unsigned short",
+             int="int", uint="unsigned int", long="long", ulong="unsigned long")
+INT_SIGNED = {"char", "schar", "short", "int", "long"}
+
+
+def s64(x):
+    x &= (1 << 64) - 1
+    return x - (1 << 64) if x >> 63 else x
+
+
+class ConvCase:
+    """all emitted vectors of one (argument type, parameter type) pair: register and stack position"""
+    def __init__(self, frm, to, vecs):
+        self.n, self.frm, self.to = 0, frm, to
+        self.vals = sorted({tuple(v["val"]) for v in vecs})
+        self.exp = {tuple(v["val"]): v["exp"] for v in vecs}
+        self.args = [frm, to]
+
+    def key(self):
+        return "conv:%s->%s" % (self.frm, self.to)
+
+    def callee_c(self):
+        t, n = INT_C[self.to], self.n
+        return ("long cvr_%d(%s x) { return (long)x; }\n"
+                "long cvs_%d(long a, long b, long c, long d, long e, long f, %s x) { return (long)x + (a + b + c + d + e + f - 21); }\n" % (n, t, n, t))
+
+    def literal(self, val):
+        u = int.from_bytes(bytes(val), "little")
+        v = s64(u) if self.frm in INT_SIGNED else u
+        return "(-%dL - 1)" % (-v - 1) if v < 0 else "%dUL" % v
+
+    def caller_c(self):
+        t, f, n = INT_C[self.to], INT_C[self.frm], self.n
+        L = ["long cvr_%d(%s); long cvs_%d(long, long, long, long, long, long, %s);" % (n, t, n, t), "void caller_%d(void) {" % n]
+        for i, val in enumerate(self.vals):
+            L.append("  { volatile %s v = %s; rec(cvr_%d(v)); rec(cvs_%d(1, 2, 3, 4, 5, 6, v)); }" % (f, self.literal(val), n, n))
+        L.append("  flush(\"r\", %d);\n}" % n)
+        return "\n".join(L) + "\n"
+
+    def expected(self):
+        out = []
+        for val in self.vals:
+            e = int.from_bytes(bytes(self.exp[val]), "little")
+            w = 8 * len(self.exp[val])
+            if self.to in INT_SIGNED and e >> (w - 1):
+                e -= 1 << w
+            out += [s64(e), s64(e)]
+        return {"r": out}
+
+    def describe(self, got, exp):
+        for i, (g, e) in enumerate(zip(got + [None] * len(exp), exp)):
+            if g != e:
+                return "%s:%s value %s" % ("stk" if i % 2 else "reg", self.key(), self.literal(self.vals[i // 2]))
+        return self.key()
+
+
+# ------------------------------------------------------------------ the return slot of a MEMORY-class value (RetSlot.tla)
+class SlotCase:
+    """d = f(&d) and relatives; the early callee (assembly) clears and fills the slot before / while reading *src"""
+    def __init__(self, shape, flavour, kind):
+        self.n, self.shape, self.flavour, self.kind = 0, shape, flavour, kind
+        self.args = [kind]
+
+    def key(self):
+        return "retslot:%s:%s:%s" % (self.shape, self.flavour, self.kind)
+
+    def size(self):
+        return dict(S24=24, Sc17=17)[self.kind]
+
+    def asm_s(self):
+        if self.flavour != "early":
+            return ""
+        n, sz = self.n, self.size()
+        body = ("  xor %%ecx, %%ecx\n1: movb $0, (%%rdi,%%rcx)\n  inc %%rcx\n  cmp $%d, %%rcx\n  jne 1b\n"      # clear the slot first
+                "  xor %%ecx, %%ecx\n2: movb (%%rsi,%%rcx), %%al\n  xor $1, %%al\n  movb %%al, (%%rdi,%%rcx)\n  inc %%rcx\n"
+                "  cmp $%d, %%rcx\n  jne 2b\n  mov %%rdi, %%rax\n  ret\n" % (sz, sz))
+        return (".text\n.globl fn_%d\nfn_%d:\n%s.globl fng_%d\nfng_%d:\n  mov gp_%d(%%rip), %%rsi\n%s" % (n, n, body, n, n, n, body))
+
+    def callee_c(self):
+        K, n = ctype(self.kind), self.n
+        L = ["%s *gp_%d;" % (K, n), "%s *idp_%d(%s *p) { return p; }" % (K, n, K)]
+        L.append("void use_%d(%s v) { %s flush(\"c\", %d); }" % (n, K, " ".join("rec(%s);" % report_expr("v" + sfx, sk) for sfx, sk in leaves(self.kind)), n))
+        if self.flavour == "late":
+            upd = " ".join("r%s = p->%s ^ %s;" % (sfx, sfx[1:], "0x0101010101010101L" if sk == "long" else "1") for sfx, sk in leaves(self.kind))
+            L.append("%s fn_%d(const %s *p) { %s r; %s return r; }" % (K, n, K, K, upd))
+            L.append("%s fng_%d(void) { return fn_%d(gp_%d); }" % (K, n, n, n))
+        return "\n".join(L) + "\n"
+
+    def caller_c(self):
+        K, n, sh = ctype(self.kind), self.n, self.shape
+        L = ["%s fn_%d(const %s *); %s fng_%d(void); extern %s *gp_%d; %s *idp_%d(%s *); void use_%d(%s);" % (K, n, K, K, n, K, n, K, n, K, n, K),
+             "void caller_%d(void) {" % n, "  %s d, s2; struct { long pad; %s m; } w; %s *p = &d;" % (K, K, K)]
+        for j, (sfx, sk) in enumerate(leaves(self.kind)):
+            L.append("  d%s = %s; s2%s = %s;" % (sfx, lit(sk, vnum(0, j))[0], sfx, lit(sk, vnum(1, j))[0]))
+        L.append(dict(arg="  d = fn_%d(&d);" % n,
+                      glob="  gp_%d = &d; d = fng_%d();" % (n, n),
+                      nested="  d = fn_%d(idp_%d(&d));" % (n, n),
+                      member="  w.m = d; w.m = fn_%d(&w.m); d = w.m;" % n,
+                      deref="  *p = fn_%d(p);" % n,
+                      byvalue="  use_%d(fn_%d(&d));" % (n, n),
+                      other="  d = fn_%d(&s2);" % n)[sh])
+        for sfx, sk in leaves(self.kind):
+            L.append("  rec(%s);" % report_expr("d" + sfx, sk))
+        L.append("  flush(\"r\", %d);\n}" % n)
+        return "\n".join(L) + "\n"
+
+    def expected(self):
+        def img(ai, on):
+            return [lit(sk, (vnum(ai, j) ^ 1) if on else vnum(ai, j))[1] for j, (_, sk) in enumerate(leaves(self.kind))]
+        if self.shape == "byvalue":
+            return {"c": img(0, True), "r": img(0, False)}
+        return {"r": img(1 if self.shape == "other" else 0, True)}
+
+    def describe(self, got, exp):
+        return self.key()
+
+
+def judge_simple(ctx, case, results, family):
+    """cases whose expectation the spec fixes completely: all three linkings with a chibicc side must match; gcc x gcc is the tie-break"""
+    exp = case.expected()
+    ctx.note_case(case.key())
+
+    def bad(r):
+        if r is None or r[0] != "ok":
+            return "crash" if r is None or r[0] == "crash" else r[0]
+        for tag in exp:
+            if r[1].get(tag) != exp[tag]:
+                return tag
+        return None
+    ref = results.get(("gcc", "gcc"))
+    if bad(ref):
+        ctx.oracle_disagreements += 1
+        ctx.cov.setdefault("oracle_examples", [])
+        if len(ctx.cov["oracle_examples"]) < 5:
+            ctx.cov["oracle_examples"].append(dict(case=case.key(), got=str(ref)[:300], exp=str(exp)[:300]))
+        return
+    for l in LINKINGS[:3]:
+        r = results.get(l)
+        what = bad(r)
+        if what:
+            got = r[1].get(what, []) if r and r[0] == "ok" else []
+            ctx.report("replay:%s>%s:%s:%s" % (l[0], l[1], family, case.key().split(":", 1)[1]),
+                       "%s linked %s>%s: %s; expected %s got %s" % (case.key(), l[0], l[1], case.describe(got, exp.get(what, [])), str(exp)[:300], str(r)[:300]),
+                       case=dict(kind=family, key=case.key(), linking="%s>%s" % l, expected=exp, got=str(r)[:1500]))
+    ctx.cov["traces_validated_against_impl"] += 3
+
+
 COMMON = r"""
 int printf(const char *, ...);
 int fflush(void *);
@@ -315,6 +463,14 @@ def run_batch(ctx, tree, cases, d):
     callers, callees = batch_sources(cases)
     open(d + "/callers.c", "w").write(callers)
     open(d + "/callees.c", "w").write(callees)
+    extra = []
+    asm = "".join(c.asm_s() for c in cases if hasattr(c, "asm_s"))
+    if asm:          # callees written directly in assembly (a callee flavour no available compiler emits)
+        open(d + "/extra.s", "w").write(asm + '\n.section .note.GNU-stack,"",@progbits\n')
+        p = vt.sh(["gcc", "-c", "-o", d + "/extra.o", d + "/extra.s"], timeout=60)
+        if p.returncode:
+            raise Infra("assembler rejects generated callee: " + p.stderr[-400:])
+        extra = [d + "/extra.o"]
     err = {}
     for comp in ("cc", "gcc"):
         for f in ("callers", "callees"):
@@ -335,7 +491,7 @@ def run_batch(ctx, tree, cases, d):
             res[id(cases[0])][l] = ("compile", bad[0], err[bad[0]])
             continue
         exe = "%s/t.%s.%s" % (d, l[0], l[1])
-        p = vt.sh(["gcc", "-no-pie", "-o", exe, "%s/callers.%s.o" % (d, l[0]), "%s/callees.%s.o" % (d, l[1])], timeout=120)
+        p = vt.sh(["gcc", "-no-pie", "-o", exe, "%s/callers.%s.o" % (d, l[0]), "%s/callees.%s.o" % (d, l[1])] + extra, timeout=120)
         if p.returncode:
             raise Infra("link failed: " + p.stderr[-400:])
         start = 0
@@ -556,6 +712,37 @@ def make_cases(beh, seed, probes=()):
     return cases
 
 
+def small_models(ctx):
+    """ArgConv.tla and RetSlot.tla: model check (+ sensitivity controls), return the emitted behaviours"""
+    out = {}
+    for mod, floor in (("ArgConv", 1000), ("RetSlot", 14)):
+        ctl = ctx.tlc("abi", mod, mod + "_pinned.cfg", env=dict(OUT=os.devnull), workers=2, timeout=300, count=False)
+        if ctl.ok:
+            raise Infra("sensitivity control failed: TLC accepts %s_pinned.cfg" % mod)
+        o = os.path.join(ctx.scratch, mod + ".ndjson")
+        res = ctx.tlc("abi", mod, mod + ".cfg", env=dict(OUT=o), workers=2, timeout=300)
+        if not res.ok:
+            p = ctx.replay_dir("tlc-" + mod)
+            open(p + "/counterexample.txt", "w").write(res.trace_text())
+            json.dump(dict(kind="tlc-small", module=mod), open(p + "/case.json", "w"))
+            ctx.report("tlc:%s:%s" % (mod, res.violated), "%s: the caller-side design is refuted (TLC counterexample)" % mod, p)
+        rows = vt.read_ndjson(o)
+        uniq = {json.dumps(r, sort_keys=True): r for r in rows}
+        out[mod] = [uniq[k] for k in sorted(uniq)]
+        if res.ok and len(out[mod]) < floor:
+            raise Infra("%s wrote only %d behaviours" % (mod, len(out[mod])))
+    return out
+
+
+def small_cases(sm):
+    groups = {}
+    for v in sm["ArgConv"]:
+        groups.setdefault((v["from"], v["to"]), []).append(v)
+    conv = [ConvCase(f, t, groups[(f, t)]) for (f, t) in sorted(groups)]
+    slot = [SlotCase(b["shape"], b["flavour"], k) for b in sm["RetSlot"] for k in ("S24", "Sc17")]
+    return conv, slot
+
+
 def run(ctx):
     q = ctx.quick
     RAXPROBE[0] = "C06-ret-rax" not in open_findings(ctx)
@@ -568,7 +755,10 @@ def run(ctx):
         if ctl.ok:
             raise Infra("sensitivity control failed: TLC accepts the deciders with %s = FALSE" % flag)
     ctx.phase("control")
-    # exhaustive checks + generation
+    # exhaustive checks + generation (the two small models run beside the allocator graph)
+    import concurrent.futures
+    pool = concurrent.futures.ThreadPoolExecutor(1)
+    smf = pool.submit(small_models, ctx)
     outs = {}
     # quick: the allocator graph over one kind per (class vector, size bucket, alignment); the kinds left out
     # (l p Sc3 Sff Sdd Sif Udl Sc16) are in every signature of length <= 2 below.  thorough: all 22.
@@ -577,6 +767,8 @@ def run(ctx):
         outs[name] = os.path.join(ctx.scratch, name + ".ndjson")
         res = tlc_run(ctx, "SysV_%s.cfg" % name, outs[name], workers=8, **over)
         check_model(ctx, res, name)
+    sm = smf.result()
+    pool.shutdown()
     ctx.phase("tlc")
     if ctx.violations:           # the design itself is refuted; the generated set is incomplete
         return ctx.finish(rule="model check only (a TLC counterexample stopped the run)", exhaustive=False)
@@ -594,8 +786,20 @@ def run(ctx):
     results = run_cases(ctx, tree, cases, "main")
     for c in cases:
         judge(ctx, c, results.get(id(c), {}))
+    # integer argument conversions (every pair of the 10 integer types x boundary values, register and stack)
+    # and the return slot of MEMORY-class values (every call shape x callee flavour)
+    conv, slot = small_cases(sm)
+    r2 = run_cases(ctx, tree, conv, "conv", size=25)
+    for c in conv:
+        judge_simple(ctx, c, r2.get(id(c), {}), "argconv")
+    r3 = run_cases(ctx, tree, slot, "slot", size=28)
+    for c in slot:
+        judge_simple(ctx, c, r3.get(id(c), {}), "retslot")
+    ctx.sample(dict(kind="argument conversion", pair=conv[len(conv) // 2].key(), values=len(conv[0].vals), expected=conv[len(conv) // 2].expected()["r"][:6]))
+    ctx.sample(dict(kind="return slot", case=slot[0].key(), expected=slot[0].expected()))
+    ncases = len(cases) + len(conv) + len(slot)
     ctx.phase("replay")
-    if ctx.oracle_disagreements > max(3, len(cases) // 50):
+    if ctx.oracle_disagreements > max(3, ncases // 50):
         raise Infra("gcc x gcc does not reproduce the expectation on %d of %d cases: the generator is broken (%s)"
                     % (ctx.oracle_disagreements, len(cases), str(ctx.cov.get("oracle_examples", [])[:1])[:600]))
     ctx.assumptions += [
@@ -612,7 +816,16 @@ def run(ctx):
 def replay(ctx, path):
     c = json.load(open(os.path.join(path, "case.json")))
     c = c.get("case") or c
-    if c.get("kind") == "tlc":
+    if c.get("kind") in ("argconv", "retslot", "tlc-small"):
+        sm = small_models(ctx)
+        if c["kind"] != "tlc-small":
+            tree = ctx.build()
+            conv, slot = small_cases(sm)
+            sel = [x for x in conv + slot if x.key() == c["key"]]
+            rr = run_cases(ctx, tree, sel, "replay")
+            for x in sel:
+                judge_simple(ctx, x, rr.get(id(x), {}), c["kind"])
+    elif c.get("kind") == "tlc":
         res = tlc_run(ctx, "SysV_%s.cfg" % c["cfg"])
         check_model(ctx, res, c["cfg"])
     else:
